@@ -265,6 +265,7 @@ pub fn split_into_fields(
     sh: &shell::Shell,
     line: &str,
     envs: &HashMap<String, String>,
+    max_fields: usize,
 ) -> Vec<String> {
     let ifs_chars;
     if envs.contains_key("IFS") {
@@ -278,10 +279,23 @@ pub fn split_into_fields(
     }
 
     if ifs_chars.is_empty() {
-        return line
-            .split(&[' ', '\t', '\n'][..])
-            .map(|x| x.to_string())
-            .collect();
+        // as with word splitting a run of blanks is one delimiter; the
+        // last field takes the rest of the line as it is
+        let mut fields = Vec::new();
+        let mut rest = line.trim();
+        while fields.len() + 1 < max_fields {
+            match rest.find(char::is_whitespace) {
+                Some(i) => {
+                    fields.push(rest[..i].to_string());
+                    rest = rest[i..].trim_start();
+                }
+                None => break,
+            }
+        }
+        if !rest.is_empty() {
+            fields.push(rest.to_string());
+        }
+        return fields;
     } else {
         return line.split(&ifs_chars[..]).map(|x| x.to_string()).collect();
     }
